@@ -37,8 +37,8 @@ META = {
 
 
 def setup(tier):
-    A = al.classify()
-    return {'alphabets': {'tandem': A['tandem']}, 'alphabet_sizes': {'tandem': len(A['tandem'])}}
+    T = al.classify_tandem()
+    return {'alphabets': {'tandem': T}, 'alphabet_sizes': {'tandem': len(T)}}
 
 
 # ------------------------------------------------------------------ C18.a dispatch
